@@ -534,6 +534,7 @@ func runGbSession(c GbCase) *pbt.Violation {
 		return v
 	}
 	pk := c.packets()
+	fd.key = len(pk)
 	tickAt := len(pk) / 2
 	if c.Udp {
 		addr := fmt.Sprintf("127.0.0.1:%d", resp.Data.Port)
